@@ -20,6 +20,20 @@
 //!        race     - | R<hex>: on receiving the request the server writes this file at the cache path
 //!                 (another process finishing first)
 //!        body     hex | -
+//! Shared-cache histories (round 4): first token kM:
+//!   kM <df> <id> <cf> <ci> <pre> <tmo> <nc> <server script>*nc <schedule>
+//!   nc clients (one HttpSymbolSupplier each, client i talks to server i only) share ONE cache directory and ONE
+//!   tmp directory and look up the same module.  Every server holds its response back until the schedule releases
+//!   it; the schedule is a ','-joined list of tokens <i><op>:
+//!     S start client i now (clients without an S token start together before the first token)
+//!     H send the response head (status line + headers) of server i; settled when the client has reacted
+//!       (temp file created / lookup finished)
+//!     B send the first half of the (possibly cut) body
+//!     E send the rest of the response and end it as scripted (clean end, FIN, RST); settled when client i finished
+//!     D drop client i's future now (abandoned request)
+//!   After every token the directories are snapshotted.  Answer:
+//!   S{n=<tokens> s0=<cache tree>/<tmp sizes>/<finished clients bitmask> ..} (s0: after the clients started, s<k>: after token k) R{r0=<result>/<#requests> ..}
+//!   F{c= t=} (after all clients finished) B{r= q= c= t=} (a further supplier with every server answering 404)
 //! Answer: A{..}B{..}[X{..}Y{..}] polls=<n>
 //!   A first lookup run to completion, B second lookup with every server answering 404,
 //!   X the lookup dropped at a poll boundary, Y a second lookup after the drop.
@@ -115,6 +129,20 @@ struct Shared {
     log: Mutex<Vec<(usize, String)>>,
     race_path: PathBuf,
     code_info: bool,
+    gates: Option<Gates>,
+}
+
+/// Release points of the gated servers of a shared-cache history (one slot per client/server index).
+struct Gates {
+    stage: Vec<std::sync::atomic::AtomicU8>, // 0 hold, 1 head released, 2 first half of the body released, 3 everything
+    req: Vec<AtomicBool>,                     // the request has arrived
+    sent: Vec<std::sync::atomic::AtomicU8>,   // what the server has flushed so far (same scale as stage)
+}
+
+async fn wait_stage(g: &Gates, idx: usize, want: u8) {
+    while g.stage[idx].load(Ordering::SeqCst) < want {
+        tokio::time::sleep(Duration::from_micros(500)).await;
+    }
 }
 
 fn reason(status: u32) -> &'static str {
@@ -185,6 +213,13 @@ async fn serve_conn(mut sock: TcpStream, idx: usize, script: Script, sh: Arc<Sha
         }
         let _ = std::fs::write(&sh.race_path, content);
     }
+    if let Some(g) = &sh.gates {
+        g.req[idx].store(true, Ordering::SeqCst);
+        if let Cut::NoHead = script.cut {
+            wait_stage(g, idx, 1).await;
+            g.sent[idx].store(3, Ordering::SeqCst);
+        }
+    }
     if let Cut::NoHead = script.cut {
         // close without answering: the client's send() fails
         return Ok(());
@@ -248,7 +283,34 @@ async fn serve_conn(mut sock: TcpStream, idx: usize, script: Script, sh: Arc<Sha
             }
         }
     }
-    send_pieces(&mut sock, &wire, &cuts).await?;
+    if let Some(g) = &sh.gates {
+        let head_len = cuts[0].min(wire.len());
+        let mid = head_len + (wire.len() - head_len) / 2;
+        wait_stage(g, idx, 1).await;
+        sock.write_all(&wire[..head_len]).await?;
+        sock.flush().await?;
+        g.sent[idx].store(1, Ordering::SeqCst);
+        let mut at = head_len;
+        loop {
+            wait_stage(g, idx, 2).await;
+            if g.stage[idx].load(Ordering::SeqCst) >= 3 {
+                break;
+            }
+            if at < mid {
+                sock.write_all(&wire[at..mid]).await?;
+                sock.flush().await?;
+                at = mid;
+            }
+            g.sent[idx].store(2, Ordering::SeqCst);
+            wait_stage(g, idx, 3).await;
+        }
+        let rest: Vec<usize> = cuts.iter().filter(|&&c| c > at).map(|&c| c - at).collect();
+        let r = send_pieces(&mut sock, &wire[at..], &rest).await;
+        g.sent[idx].store(3, Ordering::SeqCst);
+        r?;
+    } else {
+        send_pieces(&mut sock, &wire, &cuts).await?;
+    }
     match after {
         0 | 1 => {
             sock.shutdown().await?;
@@ -617,6 +679,7 @@ fn scenario(c: &Case, drop_at: Option<usize>) -> (String, String, usize, bool, u
             log: Mutex::new(Vec::new()),
             race_path: d.cache.join(&d.rel),
             code_info: c.kind.is_none() && (c.df.is_none() || c.id.is_none()),
+            gates: None,
         });
         let mut ports = Vec::new();
         let mut handles = Vec::new();
@@ -681,7 +744,199 @@ fn strip_q(block: &str) -> String {
     block.split(' ').filter(|f| !f.starts_with("q=")).collect::<Vec<_>>().join(" ")
 }
 
+/// Shared-cache history: see the module comment (kM).
+fn run_multi(line: &str) -> String {
+    let mut t = Toks::new(line);
+    assert_eq!(t.str(), "kM");
+    let df = String::from_utf8(unhex(t.str())).expect("utf8");
+    let id = t.str().to_string();
+    let cf = String::from_utf8(unhex(t.str())).expect("utf8");
+    let ci = t.str().to_string();
+    let pre = t.str().to_string();
+    let tmo = t.u64();
+    let nc = t.usize();
+    let servers: Vec<Script> = (0..nc).map(|_| parse_script(t.str())).collect();
+    let sched: Vec<(usize, char)> = t
+        .str()
+        .split(',')
+        .filter(|x| !x.is_empty() && *x != "-")
+        .map(|x| (x[..x.len() - 1].parse().expect("client"), x.chars().last().unwrap()))
+        .collect();
+    let c = Case { kind: None, df: Some(df), id: Some(id), cf, ci, pre, locs: vec![], env: "n".into(), drop: None, tmo, servers };
+    let d = setup_dirs(&c);
+    let rt = tokio::runtime::Builder::new_current_thread().enable_all().build().expect("runtime");
+    let out = rt.block_on(async {
+        use std::sync::atomic::AtomicU8;
+        let sh = Arc::new(Shared {
+            off: AtomicBool::new(false),
+            log: Mutex::new(Vec::new()),
+            race_path: d.cache.join(&d.rel),
+            code_info: false,
+            gates: Some(Gates {
+                stage: (0..nc).map(|_| AtomicU8::new(0)).collect(),
+                req: (0..nc).map(|_| AtomicBool::new(false)).collect(),
+                sent: (0..nc).map(|_| AtomicU8::new(0)).collect(),
+            }),
+        });
+        let g = sh.gates.as_ref().unwrap();
+        let mut ports = Vec::new();
+        let mut handles = Vec::new();
+        for (i, s) in c.servers.iter().enumerate() {
+            let (p, h) = start_server(i, s.clone(), sh.clone()).await;
+            ports.push(p);
+            handles.push(h);
+        }
+        let urls: Vec<String> = ports.iter().map(|p| format!("http://127.0.0.1:{}/", p)).collect();
+        let mut clients: Vec<Option<tokio::task::JoinHandle<String>>> = (0..nc).map(|_| None).collect();
+        let mut results: Vec<Option<String>> = vec![None; nc];
+        let spawn_client = |i: usize| {
+            let supplier = HttpSymbolSupplier::new(vec![urls[i].clone()], d.cache.clone(), d.tmp.clone(), vec![], Duration::from_millis(c.tmo));
+            let module = make_module(&c);
+            let ports = ports.clone();
+            let cache = d.cache.clone();
+            tokio::spawn(async move { do_lookup(&supplier, &module, None, &ports, &cache).await })
+        };
+        let tick = || tokio::time::sleep(Duration::from_micros(500));
+        // a client is "settled" when it finished, or (request phase) its request has reached its server
+        macro_rules! finished {
+            ($i:expr) => {
+                results[$i].is_some() || clients[$i].as_ref().map(|h| h.is_finished()).unwrap_or(false)
+            };
+        }
+        let explicit: Vec<usize> = sched.iter().filter(|(_, op)| *op == 'S').map(|(i, _)| *i).collect();
+        for i in 0..nc {
+            if !explicit.contains(&i) {
+                clients[i] = Some(spawn_client(i));
+            }
+        }
+        for i in 0..nc {
+            if clients[i].is_some() {
+                let mut n = 0;
+                while !(g.req[i].load(Ordering::SeqCst) || finished!(i)) && n < 4000 {
+                    tick().await;
+                    n += 1;
+                }
+            }
+        }
+        let ntmp = |d: &Dirs| std::fs::read_dir(&d.tmp).map(|r| r.count()).unwrap_or(0);
+        let mut snaps: Vec<String> = Vec::new();
+        for j in 0..nc {
+            if results[j].is_none() && clients[j].as_ref().map(|h| h.is_finished()).unwrap_or(false) {
+                results[j] = Some(clients[j].take().unwrap().await.unwrap_or_else(|_| "P".into()));
+            }
+        }
+        let mask0: usize = (0..nc).filter(|&j| results[j].is_some()).map(|j| 1 << j).sum();
+        snaps.push(format!("{}/{}/{}", tree(&d.cache, &ports), tmp_tree(&d.tmp), mask0));
+        for &(i, op) in &sched {
+            assert!(i < nc, "client index");
+            let before = ntmp(&d);
+            match op {
+                'S' => {
+                    if clients[i].is_none() && results[i].is_none() {
+                        clients[i] = Some(spawn_client(i));
+                    }
+                    let mut n = 0;
+                    while !(g.req[i].load(Ordering::SeqCst) || finished!(i)) && n < 4000 {
+                        tick().await;
+                        n += 1;
+                    }
+                }
+                'H' | 'B' | 'E' => {
+                    let want: u8 = match op {
+                        'H' => 1,
+                        'B' => 2,
+                        _ => 3,
+                    };
+                    if clients[i].is_some() && !finished!(i) && g.req[i].load(Ordering::SeqCst) {
+                        if g.stage[i].load(Ordering::SeqCst) < want {
+                            g.stage[i].store(want, Ordering::SeqCst);
+                        }
+                        let mut n = 0;
+                        loop {
+                            let sent = g.sent[i].load(Ordering::SeqCst);
+                            let fin = finished!(i);
+                            let ok = match op {
+                                'H' => fin || (sent >= 1 && ntmp(&d) != before),
+                                'B' => fin || sent >= 2,
+                                _ => fin,
+                            };
+                            if ok || n > 2 * (c.tmo as usize + 1000) {
+                                break;
+                            }
+                            tick().await;
+                            n += 1;
+                        }
+                        if op == 'B' {
+                            tokio::time::sleep(Duration::from_millis(3)).await;
+                        }
+                    }
+                }
+                'D' => {
+                    if let Some(h) = clients[i].take() {
+                        if h.is_finished() {
+                            results[i] = Some(h.await.unwrap_or_else(|_| "P".into()));
+                        } else {
+                            h.abort();
+                            let _ = h.await; // the future has been dropped when this returns
+                            results[i] = Some("DROPPED".into());
+                        }
+                    }
+                }
+                _ => panic!("schedule op"),
+            }
+            // collect finished clients
+            for j in 0..nc {
+                if results[j].is_none() && clients[j].as_ref().map(|h| h.is_finished()).unwrap_or(false) {
+                    results[j] = Some(clients[j].take().unwrap().await.unwrap_or_else(|_| "P".into()));
+                }
+            }
+            let mask: usize = (0..nc).filter(|&j| results[j].is_some()).map(|j| 1 << j).sum();
+            snaps.push(format!("{}/{}/{}", tree(&d.cache, &ports), tmp_tree(&d.tmp), mask));
+        }
+        // release everything that is still held back and let every started client finish
+        for i in 0..nc {
+            g.stage[i].store(3, Ordering::SeqCst);
+        }
+        for i in 0..nc {
+            if let Some(h) = clients[i].take() {
+                results[i] = Some(match tokio::time::timeout(Duration::from_millis(c.tmo + 2000), h).await {
+                    Ok(r) => r.unwrap_or_else(|_| "P".into()),
+                    Err(_) => "HUNG".into(),
+                });
+            }
+        }
+        let log: Vec<(usize, String)> = sh.log.lock().unwrap().drain(..).collect();
+        let mut out = format!("S{{n={}", sched.len());
+        for (k, s) in snaps.iter().enumerate() {
+            out.push_str(&format!(" s{}={}", k, s));
+        }
+        out.push_str("}R{");
+        for i in 0..nc {
+            let nreq = log.iter().filter(|(j, _)| *j == i).count();
+            out.push_str(&format!("{}r{}={}/{}", if i > 0 { " " } else { "" }, i, results[i].clone().unwrap_or_else(|| "NOTSTARTED".into()), nreq));
+        }
+        out.push_str(&format!("}}F{{c={} t={}}}", tree(&d.cache, &ports), tmp_tree(&d.tmp)));
+        // a further client, every server answering 404: served from the cache or not at all
+        sh.off.store(true, Ordering::SeqCst);
+        let supplier = HttpSymbolSupplier::new(urls.clone(), d.cache.clone(), d.tmp.clone(), vec![], Duration::from_millis(c.tmo));
+        let module = make_module(&c);
+        let res = do_lookup(&supplier, &module, None, &ports, &d.cache).await;
+        let nq = sh.log.lock().unwrap().drain(..).count();
+        out.push_str(&format!("B{{r={} q={} c={} t={}}}", res, nq, tree(&d.cache, &ports), tmp_tree(&d.tmp)));
+        for h in handles {
+            h.abort();
+        }
+        out
+    });
+    drop(rt);
+    let _ = std::fs::remove_dir_all(&d.base);
+    out
+}
+
 fn run(line: &str) -> String {
+    if line.starts_with("kM ") {
+        return run_multi(line);
+    }
     let c = parse_case(line);
     let (a, b, polls, _, _) = scenario(&c, None);
     let mut out = format!("A{{{}}}B{{{}}}", a, b);
